@@ -358,6 +358,7 @@ type c29bCfg struct {
 	parkPersist bool
 	gate        int // the stopper starts after this many submit calls were made
 	bound       int
+	atomics     bool // every atomic operation of the rewritten code is a scheduling point
 	quiet       bool
 }
 
@@ -899,7 +900,7 @@ func TestVerifC29Group(t *testing.T) {
 	var cfgs []c29bCfg
 	add := func(base string, c c29bCfg) {
 		c.property = "C29"
-		c.quiet = true
+		c.quiet = !c.atomics
 		if c.inflight == 0 {
 			c.inflight = 1
 		}
@@ -920,23 +921,25 @@ func TestVerifC29Group(t *testing.T) {
 	twoChan := [2][][]string{{{"aa", "ab"}}, {{"ba"}, {"bb"}}}
 	// a send without client message number next to an idempotent one, reply-lost fault
 	keyless := [2][][]string{{{"ax", "aa"}}, {{"ab"}}}
+	dupQ := [2][][]string{{{"aa", "bb"}}, {{"aa", "bd"}, {"aA"}}}
 	if thorough {
 		add("keyless", c29bCfg{scripts: keyless, faults: true, bound: 3})
 		add("dup", c29bCfg{router: true, scripts: dupRouter, bound: 3})
-		add("dup", c29bCfg{router: true, scripts: dupRouter, slow: true, advance: 2, effect: 2, bound: 3})
-		add("dup", c29bCfg{router: true, scripts: dupRouter, faults: true, bound: 3})
-		add("seq", c29bCfg{scripts: seqGroup, bound: 4})
-		add("seq", c29bCfg{scripts: seqGroup, slow: true, advance: 2, effect: 2, inflight: 2, bound: 4})
-		add("seq", c29bCfg{scripts: seqGroup, slow: true, bound: 4})
-		add("seq", c29bCfg{scripts: seqGroup, faults: true, bound: 4})
+		add("dup", c29bCfg{router: true, scripts: dupRouter, slow: true, advance: 2, effect: 2, bound: 2})
+		add("dup", c29bCfg{router: true, scripts: dupRouter, faults: true, bound: 2})
+		add("dup", c29bCfg{router: true, scripts: dupQ, atomics: true, bound: 2})
+		add("seq", c29bCfg{scripts: seqGroup, bound: 3})
+		add("seq", c29bCfg{scripts: seqGroup, slow: true, advance: 2, effect: 2, inflight: 2, bound: 3})
+		add("seq", c29bCfg{scripts: seqGroup, slow: true, bound: 3})
+		add("seq", c29bCfg{scripts: seqGroup, faults: true, bound: 3})
 		add("seq", c29bCfg{scripts: seqGroup, slow: true, faults: true, inflight: 2, effect: 2, bound: 3})
-		add("seq", c29bCfg{scripts: seqGroup, coalesce: true, bound: 3})
+		add("seq", c29bCfg{scripts: seqGroup, coalesce: true, bound: 2})
 		add("seq", c29bCfg{scripts: seqGroup, postCommit: true, slow: true, bound: 3})
-		add("two", c29bCfg{scripts: twoChan, slow: true, advance: 2, effect: 2, stop: "stop", bound: 4})
-		add("two", c29bCfg{scripts: twoChan, stop: "stop", gate: 1, bound: 4})
-		add("dup", c29bCfg{router: true, scripts: dupRouter, slow: true, stop: "stop", gate: 1, bound: 3})
+		add("seq", c29bCfg{scripts: seqGroup, atomics: true, inflight: 2, effect: 2, bound: 2})
+		add("two", c29bCfg{scripts: twoChan, slow: true, advance: 2, effect: 2, stop: "stop", bound: 3})
+		add("two", c29bCfg{scripts: twoChan, stop: "stop", gate: 1, bound: 3})
+		add("dup", c29bCfg{router: true, scripts: dupRouter, slow: true, stop: "stop", gate: 1, bound: 2})
 	} else {
-		dupQ := [2][][]string{{{"aa", "bb"}}, {{"aa", "bd"}, {"aA"}}}
 		add("dup", c29bCfg{router: true, scripts: dupQ, bound: 2})
 		add("dup", c29bCfg{router: true, scripts: dupQ, slow: true, advance: 2, effect: 2, bound: 2})
 		add("seq", c29bCfg{scripts: seqGroup, slow: true, advance: 2, effect: 2, inflight: 2, bound: 2})
@@ -953,7 +956,7 @@ func TestVerifC41Group(t *testing.T) {
 	var cfgs []c29bCfg
 	add := func(base string, c c29bCfg) {
 		c.property = "C41"
-		c.quiet = true
+		c.quiet = !c.atomics
 		if c.inflight == 0 {
 			c.inflight = 1
 		}
@@ -970,15 +973,19 @@ func TestVerifC41Group(t *testing.T) {
 	oneEach := [2][][]string{{{"aa"}, {"ab"}}, {{"ba"}}}
 	if thorough {
 		for _, adv := range []int{1, 2} {
-			add("two", c29bCfg{scripts: twoChan, advance: adv, effect: adv, stop: "stop", bound: 4})
-			add("two", c29bCfg{scripts: twoChan, advance: adv, effect: adv, slow: true, stop: "stop", gate: 2, postCommit: true, bound: 3})
-			add("two", c29bCfg{scripts: twoChan, advance: adv, effect: adv, slow: true, stop: "stop-cancelled", gate: 1, bound: 3})
-			add("two", c29bCfg{scripts: twoChan, advance: adv, effect: adv, slow: true, stop: "stop-timeout", gate: 1, postCommit: true, bound: 3})
-			add("two", c29bCfg{scripts: twoChan, advance: adv, effect: adv, stop: "stop-timeout", gate: 1, bound: 3})
-			add("park-append", c29bCfg{scripts: oneEach, advance: adv, effect: adv, stop: "stop-timeout", parkAppend: true, postCommit: true, bound: 4})
-			add("park-post-commit", c29bCfg{scripts: oneEach, advance: adv, effect: adv, stop: "stop-timeout", parkPersist: true, postCommit: true, bound: 4})
+			add("two", c29bCfg{scripts: twoChan, advance: adv, effect: adv, stop: "stop", bound: 3})
+			add("two", c29bCfg{scripts: twoChan, advance: adv, effect: adv, slow: true, stop: "stop", gate: 2, postCommit: true, bound: 2})
+			add("two", c29bCfg{scripts: twoChan, advance: adv, effect: adv, slow: true, stop: "stop-timeout", gate: 1, postCommit: true, bound: 2})
+			add("park-append", c29bCfg{scripts: oneEach, advance: adv, effect: adv, stop: "stop-timeout", parkAppend: true, postCommit: true, bound: 2})
+			add("park-post-commit", c29bCfg{scripts: oneEach, advance: adv, effect: adv, stop: "stop-timeout", parkPersist: true, postCommit: true, bound: 2})
 		}
-		add("router", c29bCfg{router: true, scripts: [2][][]string{{{"aa", "bb"}}, {{"ab", "ba"}}}, slow: true, stop: "stop", gate: 1, postCommit: true, bound: 3})
+		add("two", c29bCfg{scripts: twoChan, slow: true, stop: "stop-cancelled", gate: 1, bound: 3})
+		add("two", c29bCfg{scripts: twoChan, advance: 2, effect: 2, stop: "stop-timeout", gate: 1, bound: 3})
+		add("park-append", c29bCfg{scripts: oneEach, stop: "stop-timeout", parkAppend: true, postCommit: true, bound: 3})
+		add("park-post-commit", c29bCfg{scripts: oneEach, advance: 2, effect: 2, stop: "stop-timeout", parkPersist: true, postCommit: true, bound: 3})
+		add("two", c29bCfg{scripts: twoChan, stop: "stop-cancelled", gate: 1, atomics: true, bound: 2})
+		add("park-append", c29bCfg{scripts: oneEach, stop: "stop-timeout", parkAppend: true, atomics: true, bound: 2})
+		add("router", c29bCfg{router: true, scripts: [2][][]string{{{"aa", "bb"}}, {{"ab", "ba"}}}, slow: true, stop: "stop", gate: 1, postCommit: true, bound: 2})
 	} else {
 		add("two", c29bCfg{scripts: twoChan, slow: true, stop: "stop", gate: 1, postCommit: true, bound: 2})
 		add("two", c29bCfg{scripts: twoChan, slow: true, stop: "stop-timeout", gate: 1, bound: 2})
